@@ -38,6 +38,17 @@ def _shard(args):
     return out['stats'], bad, evals, coll, pyeq, pairs, fam_stats
 
 
+def _option_shard(args):
+    seed, n = args
+    from .. import suite_ghash
+    tot, problems = 0, []
+    for i in range(n):
+        st, pr = suite_ghash.run_option_family(seed * 131 + i)
+        tot += st['variants']
+        problems += pr
+    return tot, problems
+
+
 def run(tier, seed, res, lean):
     shards = 16 if tier == 'quick' else 64
     per = 90 if tier == 'quick' else 450
@@ -81,6 +92,12 @@ def run(tier, seed, res, lean):
     for p in [p for o in ef for p in o[1] if p.get('kind') != 'silent-changes-hash'][:3]:
         res.violations.append(Violation('c05-explicit-function', p['msg'][:400], {'suite': 'S-HASH/explicit', **p}))
     res.coverage['explicit_function_cases'] = sum(o[0] for o in ef)
+    # dataset-wide layers differing in one option (keep / drop, id lists, grouping keys, join modes): equal digest => equal value
+    from .. import suite_ghash
+    of = pmap(_option_shard, [(seed * 2711 + i + 5, 6 if tier == 'quick' else 40) for i in range(shards)])
+    for p in [p for o in of for p in o[1]][:3]:
+        res.violations.append(Violation('c05-option-collision', p['msg'][:400], {'suite': 'S-GHASH/options', **p}))
+    res.coverage['option_family_variants'] = sum(o[0] for o in of)
     fam = {}
     for o in outs:
         for k, v in o[6].items():
